@@ -18,6 +18,7 @@ package cli
 
 import (
 	"errors"
+	"strings"
 
 	"github.com/cosmos/btcutil/base58"
 	"github.com/ethereum/go-ethereum/common"
@@ -26,7 +27,7 @@ import (
 // parseAddress parses an encoded address into a 32 length byte array.
 // Currently supported encodings: base58, hex.
 func parseAddress(address string) ([]byte, error) {
-	if address[:2] == "0x" {
+	if strings.HasPrefix(address, "0x") {
 		bz := common.FromHex(address)
 		return leftPadBytes(bz)
 	}
